@@ -3,19 +3,31 @@
 (* lists read off the heap are the lists WTinyLFU.tla computes (same keys, same order, same value objects), with the  *)
 (* admission verdict the machine drew passed to the abstract step.                                                     *)
 EXTENDS WTinyHeap
-VARIABLES abs
+VARIABLES abs, rets      \* rets: what the last completed operation handed back: <<value objects, key ids>> at pointer level and in WTinyLFU.tla
 WT == INSTANCE WTinyLFU WITH W <- WS, A <- CA, B <- CB
 HeapList(l) == [i \in 1..Len(Fwd(l)) |-> [k |-> KeyValOf(heap, Fwd(l)[i]), v |-> heap[Fwd(l)[i]].val]]
-MCInit == Init /\ abs = WT!WInit
+AbsStep == CASE regs.op = "put" -> WT!WPut(abs, regs.k, 2 * nputs, IF regs.adm = 2 THEN "reject" ELSE "admit")
+             [] regs.op = "get" -> WT!WGet(abs, regs.k, 0)
+             [] regs.op = "remove" -> WT!WRemove(abs, regs.k)
+RetVals(r) == CASE r.t = "Update" -> {r.old} [] r.t = "Evicted" -> {r.ev} [] r.t = "EvictedAndUpdate" -> {r.ev, r.old}
+                [] r.t = "Some" -> {r.val} [] OTHER -> {}
+RetKeys(r) == IF r.t \in {"Evicted", "EvictedAndUpdate"} THEN {r.ek} ELSE {}
+NoRets == <<{}, {}, {}, {}>>
+MCInit == Init /\ abs = WT!WInit /\ rets = NoRets
 Track ==
   abs' = IF panics' > 0 THEN abs
          ELSE IF prog # <<>> /\ prog' = <<>> THEN
-              (CASE regs.op = "put" -> WT!WPut(abs, regs.k, 2 * nputs, IF regs.adm = 2 THEN "reject" ELSE "admit").st
-                 [] regs.op = "get" -> WT!WGet(abs, regs.k, 0).st
-                 [] regs.op = "remove" -> WT!WRemove(abs, regs.k).st)
+              AbsStep.st
          ELSE abs
-MCNext == Next /\ Track
-MCSpec == MCInit /\ [][MCNext]_<<vars, abs>>
+TrackRet ==
+  rets' = IF panics' > 0 \/ ~(prog # <<>> /\ prog' = <<>>) THEN NoRets
+          ELSE IF regs.op = "get" THEN NoRets            \* a get hands back a reference, no object changes hands
+          ELSE <<{t \in regs.ret : tok[t].k = 0}, {tok[t].k : t \in {x \in regs.ret : tok[x].k # 0}},
+                 RetVals(AbsStep.ret), RetKeys(AbsStep.ret)>>
+MCNext == Next /\ Track /\ TrackRet
+MCSpec == MCInit /\ [][MCNext]_<<vars, abs, rets>>
 Refines == (Idle /\ panics = 0) =>
               /\ HeapList("W") = abs.win /\ HeapList("PB") = abs.main.prob /\ HeapList("PT") = abs.main.prot
+\* C12 at pointer level: the objects handed back by put / remove are the ones WTinyLFU.tla's PutResult / Option carries
+RetRefines == rets[1] = rets[3] /\ rets[2] = rets[4]
 =============================================================================
